@@ -13,6 +13,7 @@ from mc import vm, catalog
 from mc.refmodels import pair
 
 PID = 'C01'
+THOROUGH_HASHSEEDS = ['0', '1']     # two interpreter hash seeds in the thorough tier (one pass takes 15-30 min)
 ENGINE = 'E1'
 TECHNIQUE = 'bounded-exhaustive enumeration of input data (k deviations from base points) vs pair-state Dyson reference model validated against brute-force torus chain'
 RULE = ('node = (crystal, cutoff, Nthermo, base point, <=k one-class deviations); every node is evaluated by '
